@@ -21,7 +21,7 @@ inductive XmlCb where
   | pi (target data : Str)
   | comment (s : Str)
   | default_ (s : Str) (line col : Int)   -- `DefaultHandlerExpand`, with Expat's current position
-  deriving Repr
+  deriving Repr, DecidableEq
 
 /-- `text[1:-1]` -/
 def innerName (s : Str) : Str := (s.drop 1).dropLast
@@ -144,6 +144,8 @@ inductive XNode where
   | pi (target data : Str)
   | decl (version : Str) (encoding : Option Str) (standalone : Int)
   | doctype (name : Str) (sysid pubid : Option Str) (hasInternal : Bool)
+  | ignorable (s : Str) (line col : Int)   -- what Expat hands to the default handler and is not a reference:
+                                           -- white space outside the root element, the internal DTD subset
 
 mutual
   /-- the handler calls Expat makes for a node: namespace declarations bracket the element -/
@@ -158,6 +160,7 @@ mutual
     | .pi t d => [XmlCb.pi t d]
     | .decl v e s => [XmlCb.xmlDecl v e s]
     | .doctype n sy pb h => [XmlCb.startDoctype n sy pb h]
+    | .ignorable s l c => [XmlCb.default_ s l c]
   def callbacksList : List XNode → List XmlCb
     | [] => []
     | n :: ns => n.callbacks ++ callbacksList ns
@@ -176,9 +179,21 @@ mutual
     | .pi t d => [Node.leaf (.pi t d)]
     | .decl v e s => [Node.leaf (.xmlDecl v e s)]
     | .doctype n sy pb _ => [Node.leaf (.doctype n pb sy)]
+    | .ignorable _ _ _ => []
   def toNodesList : List XNode → List Node
     | [] => []
     | n :: ns => n.toNodes ++ toNodesList ns
+end
+
+mutual
+  /-- the text of an `ignorable` node is not a reference (does not begin with `&`) -/
+  def XNode.wf : XNode → Bool
+    | .elem _ _ _ kids => wfList kids
+    | .ignorable s _ _ => s.head? != some '&'
+    | _ => true
+  def wfList : List XNode → Bool
+    | [] => true
+    | n :: ns => n.wf && wfList ns
 end
 
 end Genshi.Parse
